@@ -34,3 +34,24 @@ func init() {
 		Thorough: tierSpec{Harnesses: []harnessSpec{{Func: gp + "internal/zzverif.VC01", Discover: 3, Params: map[string]int{"alldigits": 1, "allregs": 1}, Reach: []string{"c01.decode.accepted"}}}},
 	}
 }
+
+func init() {
+	properties["C02"] = &propSpec{ID: "C02",
+		Quick: tierSpec{Harnesses: []harnessSpec{
+			{Func: gp + "internal/codegen.VC02K", Discover: 3, Reach: []string{"c02k.accepted"}},
+			{Func: gp + "internal/zzverif.VC02Shapes", Discover: 4, Reach: []string{"c02.ea.accepted"}},
+			{Func: gp + "internal/zzverif.VC02Carriers", Discover: 3, Reach: []string{"c02.ea.accepted"}},
+		}},
+		Thorough: tierSpec{Harnesses: []harnessSpec{
+			{Func: gp + "internal/codegen.VC02K", Discover: 3, Reach: []string{"c02k.accepted"}},
+			{Func: gp + "internal/zzverif.VC02Shapes", Discover: 5, Params: map[string]int{"alldigits": 1, "allregs": 1}, Reach: []string{"c02.ea.accepted"}},
+			{Func: gp + "internal/zzverif.VC02Carriers", Discover: 4, Params: map[string]int{"alldigits": 1, "allregs": 1}, Reach: []string{"c02.ea.accepted"}},
+		}},
+		Bounds: []string{
+			"kernel level: calculateModRM on every 32-bit base (8 or none) x index (7 or none) x scale {1,2,4,8} and every 16-bit shape, both modes, reg field 0..7, displacement over all of int64",
+			"source level: shapes written as text ([base+index*scale+d], [base-m]) through both PEG parsers' structure, pass 1, codegen; displacement literals of 1..10 digits (quick: digit classes 1,3,5,10); carriers MOV load/store/store-imm, ALU load/store/imm, NOT, SHL, PUSH, POP, LGDT, accumulator forms",
+			"quick tier sweeps each of base / index / scale against fixed values of the others and uses one register width; thorough tier takes the full cross product and widths 8/16/32",
+		},
+		OutsideBounds: []string{"segment overrides", "label displacements", "displacements written as hex literals or expressions (C06)", "16-bit addressing registers in 32-bit mode beyond the listed known finding"},
+	}
+}
